@@ -382,26 +382,38 @@ int main(int argc, char *argv[]) {
   // else
   if (m.src == STD) {
 
+    // read the whole program first and assemble it in one call, exactly like
+    // the FILE path (assembling line by line made the library print the whole
+    // buffer again after every line with -p -c)
     char *line = NULL;
-    int chunk_brks = 0;
     size_t size = BUFFER_SIZE;
-    // init total count
-    if (m.count)
-      total_chunk_brks = 0;
-
-    while (getline(&line, &size, stdin) != -1) {
-
-      int ret = m.count ? asm_assemble_string_counting_chunks(
-                              al, line, ops.chunk_boundary, &chunk_brks)
-                        : asm_assemble_str(al, line);
-      if (ret) {
-        fprintf(stderr, "failed to assemble instruction: %s\n", line);
-        exit(EXIT_FAILURE);
+    size_t prog_len = 0;
+    char *prog = calloc(1, sizeof(char));
+    ssize_t line_len = 0;
+    while (prog != NULL && (line_len = getline(&line, &size, stdin)) != -1) {
+      char *grown = realloc(prog, prog_len + (size_t)line_len + 1);
+      if (grown == NULL) {
+        free(prog);
+        prog = NULL;
+        break;
       }
-      total_chunk_brks += chunk_brks;
+      prog = grown;
+      memcpy(prog + prog_len, line, (size_t)line_len + 1);
+      prog_len += (size_t)line_len;
     }
-
     free(line);
+    if (prog == NULL) {
+      fprintf(stderr, "failed to read stdin\n");
+      exit(EXIT_FAILURE);
+    }
+    int ret = m.count ? asm_assemble_string_counting_chunks(
+                            al, prog, ops.chunk_boundary, &total_chunk_brks)
+                      : asm_assemble_str(al, prog);
+    free(prog);
+    if (ret) {
+      fprintf(stderr, "failed to assemble instructions from stdin\n");
+      exit(EXIT_FAILURE);
+    }
   }
 
   if (total_chunk_brks != -1)
